@@ -143,6 +143,25 @@ def main(args):
         s = json.load(open(os.path.join(scratch, "st.json")))
         print("  altered expectation for path %r: %d mismatch(es) reported" % (case["p"], s["mismatch_count"]))
         ok &= s["mismatch_count"] == 1
+
+        print("4. every exported function / method of the core package is called by the harness (a specification nothing binds decides nothing)")
+        import re, glob
+        repo = os.environ.get("VERIF_REPO", "/repo")
+        exported = set()
+        for f in glob.glob(os.path.join(repo, "*.go")):
+            if f.endswith("_test.go") or os.path.basename(f).startswith("verif_"):
+                continue
+            src = re.sub(r"/\*.*?\*/", "", open(f, encoding="utf-8", errors="replace").read(), flags=re.S)    # (block comments hold retired functions)
+            for m in re.finditer(r"^func (?:\([a-z]+ \*?([A-Za-z]+)\) )?([A-Z][A-Za-z0-9]*)\(", src, flags=re.M):
+                recv, name = m.group(1), m.group(2)
+                if recv is None or recv[0].isupper():
+                    exported.add(name)
+        hsrc = "".join(open(f).read() for f in glob.glob(os.path.join(check.VERIF, "harness", "cmd", "mxjconf", "*.go")) + glob.glob(os.path.join(check.VERIF, "harness", "tagged", "*.go")))
+        # out of scope (DESIGN section 7): the deprecated struct stub and its inverse, the trivial constructor
+        allowed = {"NewMapStruct", "Struct", "NewMaps"}
+        unbound = sorted(n for n in exported if n not in allowed and not re.search(r"\b%s\(" % re.escape(n), hsrc))
+        print("  %d exported identifiers, %d out of scope, unbound: %s" % (len(exported), len(allowed), unbound or "none"))
+        ok &= not unbound
     finally:
         shutil.rmtree(scratch, ignore_errors=True)
     print("selftest", "OK" if ok else "FAILED")
